@@ -16,7 +16,7 @@ def pick(rnd, i):
 
 CHECK = ComponentCheck("C26", pick, drain=0, suite=(("PreservedOrderAllocator",), ("test/lib/test_allocators.py",)))
 shards, run_shard = CHECK.shards, CHECK.run_shard
-RULE = ("histories = hostile random alloc/free/free_idx/order/clear sequences for entries in {1,2,3,4,5,8}, freeing the oldest, newest or a random "
+RULE = ("[in 30% of the histories every provided exclusive method has a second, competing caller transaction: a request is issued by the main caller, the rival or both; condition exclusive_method_serves_at_most_one_caller_per_cycle] histories = hostile random alloc/free/free_idx/order/clear sequences for entries in {1,2,3,4,5,8}, freeing the oldest, newest or a random "
         "allocated identifier; `order` is read every possible cycle and must be a permutation whose prefix is the model's allocation order; "
         "non-trivial distinct case = (entries, set of >=2 executed state-changing methods, used count)")
 ASSUMPTIONS = ["free and free_idx conflict (free calls free_idx): only done=>allowed and progress of the pair are required for them"]
